@@ -669,6 +669,26 @@ def generate(problems):
         if not sub_inherited:
             problems.append("ExcFlow: add_subcommand no longer copies settings of the parent parser to the sub-command parser")
 
+    # where parse_args drops a pending print_config request: `self.__dict__.pop("print_config", ..)` / delattr / del
+    def drops_request(stmts):
+        for n in ast.walk(ast.Module(body=list(stmts), type_ignores=[])):
+            src = ast.unparse(n) if isinstance(n, (ast.Call, ast.Delete)) else ""
+            if "print_config" in src and (".pop(" in src or src.startswith("delattr(") or src.startswith("del ")):
+                return True
+        return False
+
+    cleanup = ".absent"
+    fn = _func(core, "ArgumentParser.parse_args")
+    best = _outer_error_try(fn) if fn else None
+    if best and best[0] == 0:
+        t = best[1]
+        if drops_request(t.finalbody):
+            cleanup = ".inFinally"
+        elif any(drops_request(h.body) for h in t.handlers):
+            cleanup = ".inHandlerOnly"
+    if cleanup == ".absent":
+        problems.append("ExcFlow: parse_args no longer drops a pending print_config request around its try block")
+
     loader_exc = {}
     for mode in ("yaml", "json", "toml", "jsonnet"):
         if mode not in loaders:
@@ -734,6 +754,7 @@ def generate(problems):
     out.append("  innerExitOnError := %s" % ("true" if inner_eoe else "false"))
     out.append("  helpExitOnError := %s" % ("true" if help_eoe else "false"))
     out.append("  subInherited := [%s]" % ", ".join('"%s"' % a for a in sub_inherited))
+    out.append("  printConfigCleanup := %s" % cleanup)
     out.append("")
     out.append("end Jap.Gen.ExcFlow")
     write_if_changed("ExcFlow.lean", "\n".join(out) + "\n")
